@@ -254,38 +254,38 @@ func propC01(c *Ctx) {
 	}
 	// string concatenation: the only folded string cell is guarded by op == token.Add
 	// (covered by the generic scan above only for switch clauses), check it explicitly
-	if fd := l.Decl(methodObj(p.Types, "SimpleOptimizer", "binaryop")); fd != nil {
-		ast.Inspect(fd.Body, func(n ast.Node) bool {
-			be, ok := n.(*ast.BinaryExpr)
-			if !ok || be.Op != token.ADD {
-				return true
+	if bfn := l.Method(modPath, "SimpleOptimizer", "binaryop"); bfn != nil {
+		addTok := int64(-1)
+		for k, n := range tokName {
+			if n == "Add" {
+				addTok = k
 			}
-			if litKindOfValue(info, be.X) != "StringLit" || litKindOfValue(info, be.Y) != "StringLit" {
-				return true
+		}
+		eachInstr(bfn, func(ins ssa.Instruction) {
+			bo, ok := ins.(*ssa.BinOp)
+			if !ok || bo.Op != token.ADD {
+				return
 			}
-			// must be dominated by op == token.Add in an enclosing if
+			if bt, ok := bo.X.Type().Underlying().(*types.Basic); !ok || bt.Info()&types.IsString == 0 {
+				return
+			}
+			// every feasible path to the concatenation has taken the branch op == token.Add
 			guarded := false
-			ast.Inspect(fd.Body, func(m ast.Node) bool {
-				ifs, ok := m.(*ast.IfStmt)
-				if !ok || !(ifs.Body.Pos() <= be.Pos() && be.End() <= ifs.Body.End()) {
-					return true
+			for _, g := range guardEdges(bo.Block()) {
+				cmp, ok := g.If.Cond.(*ssa.BinOp)
+				if !ok || (cmp.Op != token.EQL && cmp.Op != token.NEQ) {
+					continue
 				}
-				ast.Inspect(ifs.Cond, func(q ast.Node) bool {
-					if ce, ok := q.(*ast.BinaryExpr); ok && ce.Op == token.EQL {
-						for _, side := range []ast.Expr{ce.X, ce.Y} {
-							if tv, ok := info.Types[side]; ok && tv.Value != nil && isNamed(tv.Type, modPath+"/token", "Token") {
-								if k, ok := constInt(tv); ok && tokName[k] == "Add" {
-									guarded = true
-								}
-							}
-						}
+				for _, pr := range [][2]ssa.Value{{cmp.X, cmp.Y}, {cmp.Y, cmp.X}} {
+					if _, isParam := pr[0].(*ssa.Parameter); !isParam {
+						continue
 					}
-					return true
-				})
-				return true
-			})
-			c.Check(ra, "binaryop | StringLit Add StringLit", l.Pos(be.Pos()), guarded, "string concatenation folded only for token.Add", "string literals are concatenated for a token other than +")
-			return false
+					if k, ok := constInt64(pr[1]); ok && k == addTok && (cmp.Op == token.EQL) == g.Truth {
+						guarded = true
+					}
+				}
+			}
+			c.Check(ra, "binaryop | StringLit Add StringLit", l.Pos(bo.Pos()), guarded, "string concatenation folded only for token.Add", "string literals are concatenated for a token other than +")
 		})
 	}
 
